@@ -14,6 +14,7 @@ structure DSt where
   cfg : Cfg
   reg : List Entry
   pre : Option (List Entry)   -- registry before the last restart, while no reg/dereg followed
+  spec : List Entry           -- Spec registry: every key holds its last registration
 
 def lookupOf (s : String) : Lookup :=
   if s == "iteratesMap" then .iteratesMap else if s == "ranked" then .ranked else .unknown
@@ -34,15 +35,18 @@ def results (cfg : Cfg) (reg : List Entry) (n : Name) : List String :=
 
 def step (d : DSt) (line : String) : DSt × String :=
   match line.splitOn " " with
-  | ["case", _] => ({ d with reg := [], pre := none }, line)
+  | ["case", _] => ({ d with reg := [], pre := none, spec := [] }, line)
   | ["reg", s, r, w, m, idle, wi, size] =>
     match idle.toInt?, wi.toInt?, size.toInt? with
     | some i, some v, some z =>
       if m != "M" && m != "P" then (d, "bad-op") else
-      ({ d with reg := register d.reg ⟨bytesOf s, bytesOf r, bytesOf w⟩ (m == "M") i v z, pre := none }, "ok")
+      let p : Name := ⟨bytesOf s, bytesOf r, bytesOf w⟩
+      ({ d with reg := register d.cfg d.reg p (m == "M") i v z, pre := none,
+                spec := d.spec.filter (fun e => !hasKey (canon p) e) ++ [entryOf p (m == "M") i v z] }, "ok")
     | _, _, _ => (d, "bad-op")
   | ["dereg", s, r, w] =>
-    ({ d with reg := deregister d.reg ⟨bytesOf s, bytesOf r, bytesOf w⟩, pre := none }, "ok")
+    ({ d with reg := deregister d.reg ⟨bytesOf s, bytesOf r, bytesOf w⟩, pre := none,
+              spec := deregister d.spec ⟨bytesOf s, bytesOf r, bytesOf w⟩ }, "ok")
   | ["get", s, r, w] =>
     let n : Name := ⟨bytesOf s, bytesOf r, bytesOf w⟩
     let ps := possible d.cfg d.reg n
@@ -51,7 +55,9 @@ def step (d : DSt) (line : String) : DSt × String :=
     let f2 := match d.pre with
       | some old => if results d.cfg old n != rs then "\t#F:C21-restart-loses-field" else ""
       | none => ""
-    (d, "res " ++ " ".intercalate rs ++ f1 ++ f2)
+    -- the winning entry is not what was last registered for its pattern
+    let f3 := if ps.any (fun e => e != defaultEntry n && !(d.spec.contains e)) then "\t#F:C21-reregistration-ignored" else ""
+    (d, "res " ++ " ".intercalate rs ++ f1 ++ f2 ++ f3)
   | ["restart"] =>
     let old := match d.pre with | some o => o | none => d.reg
     ({ d with reg := reload d.cfg d.reg, pre := some old }, "ok")
@@ -62,8 +68,8 @@ def run (args : List String) : IO UInt32 := do
   let cfg : Cfg :=
     ⟨lookupOf (arg kv "lookup"), cmpOf (arg kv "cmp"),
      ((arg kv "wRealm").toInt?).getD 0, ((arg kv "wSwamp").toInt?).getD 0,
-     yes (arg kv "persistsInMem"), yes (arg kv "persistsIdle"), yes (arg kv "persistsWi"), yes (arg kv "persistsSize")⟩
-  lineLoop step ⟨cfg, [], none⟩
+     yes (arg kv "persistsInMem"), yes (arg kv "persistsIdle"), yes (arg kv "persistsWi"), yes (arg kv "persistsSize"), yes (arg kv "unchangedChecksType")⟩
+  lineLoop step ⟨cfg, [], none, []⟩
   return 0
 
 end Driver.C21
